@@ -7,8 +7,8 @@
      pycoin/coins/bcash|bgold|groestlcoin/SolutionChecker.py   the overrides
      pycoin/coins/bitcoin/Tx.py, TxIn.py, TxOut.py  Tx.stream(include_witness_data=False), Tx.hash(hash_type)
      pycoin/coins/groestlcoin/Tx.py            Tx.hash with single SHA-256
-     pycoin/vm/ScriptTools.py                  get_opcodes (the pc loop), compile_push_data_list([blob])
-   The instruction decoder and the push encoder are the finished C12 models (Model/Push.v).
+     pycoin/vm/ScriptTools.py                  get_opcodes (the pc loop)
+   The instruction decoder is the finished C12 model (Model/Push.v).
    Every constant comes from Gen/GenSighashC04.v (regenerated from /repo on every run).
    Python ints that the code packs are N here (negative values are outside the model);
    struct.pack range errors are E_STRUCT, list indexing errors E_INDEX, `None.coin_value` E_ATTR,
@@ -46,9 +46,18 @@ Fixpoint delete_walk (fuel : nat) (script sub : bytes) (pc : nat) : outcome byte
 Definition delete_subscript (script sub : bytes) : outcome bytes :=
   delete_walk (length script) script sub 0.
 
-(* _delete_signature: subscript = compile_push_data_list([sig_blob]) *)
+(* _delete_signature (after /repo commit 2ba5b6d): the pattern is the PLAIN push of the blob —
+     size < 76: bytes([size]);  <= 0xFF: 4c size;  <= 0xFFFF: 4d size.to_bytes(2,"little");
+     else 4e size.to_bytes(4,"little")  (OverflowError from 2^32 on) — then the same get_opcodes walk *)
+Definition plain_push (blob : bytes) : outcome bytes :=
+  let size := N.of_nat (length blob) in
+  if size <? 76 then Ret (n2b size :: blob)
+  else if size <=? 255 then Ret (x4c :: n2b size :: blob)
+  else if size <=? 65535 then Ret (x4d :: le_encode 2 size ++ blob)
+  else if size <? 4294967296 then Ret (x4e :: le_encode 4 size ++ blob)
+  else Raise E_OVERFLOW.
 Definition delete_signature (script sig_blob : bytes) : outcome bytes :=
-  do sub <- btc_compile_push_data sig_blob;
+  do sub <- plain_push sig_blob;
   delete_subscript script sub.
 
 (* the script part of sig_for_hash_type_f: script = vm.script[vm.begin_code_hash:], every blob deleted in turn *)
